@@ -9,7 +9,8 @@ Line-protocol driver for C02 (`sqfsmodel c02`).  One operation per input line, o
   spec <B> <mb> …same…     the queue-free reference `packRef` (`Sqfs/Spec/BlockProcSpec.lean`; `mb` is ignored) → same format
   state <B> <mb> …same…
         → the final bookkeeping of the processor (`finish_writes_everything`): backlog, io_queue length, sequence numbers,
-          pool calls
+          items submitted to the pool, the largest number of items inside the pool at any time (serial pool: a
+          function of the workload and `max_backlog`), in-flight copies left
   xxh <hbits> <data-hex>        → <hex8>           (the checksum function the driver passes as `h`)
   sde <value-hex|none>           → <mtime>          (`get_source_date_epoch`, `Sqfs/Model/BuildEnv.lean`)
   mtime <sde-hex|none> <defaults-mtime|-> <keep 0|1> <input mtime> → <superblock mtime> <inode mtime>
@@ -180,7 +181,14 @@ def step (line : String) : String :=
     | none => "bad-op"
     | some j =>
       match runProc j.P j.mb j.files with
-      | .ok s => s!"ok backlog={s.backlog} ioq={s.ioQueue.length} seq={s.ioSeqNum} deq={s.ioDeqSeqNum} pending={s.pool.ser.queue.length} calls={s.pool.calls.length} inflight={s.fblkInFlight.length}"
+      | .ok s =>
+        -- the largest number of items inside the pool at any time, from the values the pool returned
+        let mq := s.pool.ser.rets.foldl (fun (acc : Nat × Nat) r =>
+          match r with
+          | .submit 0 => (acc.1 + 1, max acc.2 (acc.1 + 1))
+          | .deq (some _) => (acc.1 - 1, acc.2)
+          | _ => acc) (0, 0)
+        s!"ok backlog={s.backlog} ioq={s.ioQueue.length} seq={s.ioSeqNum} deq={s.ioDeqSeqNum} pending={s.pool.ser.queue.length} sub={s.pool.table.length} maxq={mq.2} inflight={s.fblkInFlight.length}"
       | .error e => "err " ++ showErr e
   | ["xxh", bits, d] =>
     match bits.toNat?, fromHexFast d with
